@@ -170,26 +170,42 @@ fn in_pool<T: Send>(threads: usize, f: impl FnOnce() -> T + Send) -> T {
     rayon::ThreadPoolBuilder::new().num_threads(threads).build().unwrap().install(f)
 }
 
-/// Execute one op line in a child `vh exec` whose global rayon pool has `threads` workers; `None` = no answer within
-/// `secs` seconds (the child is killed).
-fn in_child(threads: usize, secs: u64, line: &str) -> Option<String> {
+/// Execute one op line in a child `vh exec` whose global rayon pool has `threads` workers.  `Err("timeout")` = no answer
+/// within `secs` seconds (the child is killed); `Err("child-…")` = the child could not be run at all (harness trouble,
+/// reported as such — never as a timeout).
+fn in_child(threads: usize, secs: u64, line: &str) -> Result<String, String> {
     use std::io::{Read, Write};
     use std::process::{Command, Stdio};
-    let exe = std::env::current_exe().ok()?;
-    let mut child = Command::new(exe)
-        .arg("exec")
-        .env("RAYON_NUM_THREADS", threads.to_string())
-        .stdin(Stdio::piped())
-        .stdout(Stdio::piped())
-        .stderr(Stdio::null())
-        .spawn()
-        .ok()?;
+    // the running image itself (survives a rebuild that replaces the file on disk)
+    let exe = if std::path::Path::new("/proc/self/exe").exists() {
+        PathBuf::from("/proc/self/exe")
+    } else {
+        std::env::current_exe().map_err(|e| format!("child-no-exe:{:?}", e.kind()))?
+    };
+    let mut tries = 0;
+    let mut child = loop {
+        match Command::new(&exe)
+            .arg("exec")
+            .env("RAYON_NUM_THREADS", threads.to_string())
+            .stdin(Stdio::piped())
+            .stdout(Stdio::piped())
+            .stderr(Stdio::null())
+            .spawn()
+        {
+            Ok(c) => break c,
+            // EAGAIN under load: wait and retry
+            Err(_) if tries < 20 => {
+                tries += 1;
+                std::thread::sleep(Duration::from_millis(100));
+            }
+            Err(e) => return Err(format!("child-spawn-failed:{:?}", e.kind())),
+        }
+    };
     {
-        let mut stdin = child.stdin.take()?;
-        stdin.write_all(line.as_bytes()).ok()?;
-        stdin.write_all(b"\n").ok()?;
+        let mut stdin = child.stdin.take().ok_or("child-no-stdin")?;
+        stdin.write_all(line.as_bytes()).and_then(|()| stdin.write_all(b"\n")).map_err(|e| format!("child-write-failed:{:?}", e.kind()))?;
     }
-    let mut stdout = child.stdout.take()?;
+    let mut stdout = child.stdout.take().ok_or("child-no-stdout")?;
     let reader = std::thread::spawn(move || {
         let mut out = String::new();
         _ = stdout.read_to_string(&mut out);
@@ -203,12 +219,12 @@ fn in_child(threads: usize, secs: u64, line: &str) -> Option<String> {
             _ => {
                 _ = child.kill();
                 _ = child.wait();
-                return None;
+                return Err("timeout".into());
             }
         }
     }
-    let out = reader.join().ok()?;
-    Some(out.lines().next().unwrap_or("child-no-output").to_string())
+    let out = reader.join().map_err(|_| "child-reader-panicked".to_string())?;
+    out.lines().next().map(ToString::to_string).ok_or_else(|| "child-no-output".to_string())
 }
 
 /// `<seed>` or `<seed>.<pool>`
@@ -282,7 +298,11 @@ fn exec_stream(seed: &str, forest: &str, roots: &str) -> String {
             if roots != "-" && roots.split(',').any(|x| x.parse::<u64>().is_err()) {
                 return "bad-op".into();
             }
-            return in_child(n, 90, &format!("c13 stream {seed} {forest} {roots}")).unwrap_or_else(|| "oracle-fail:timeout".into());
+            return match in_child(n, 90, &format!("c13 stream {seed} {forest} {roots}")) {
+                Ok(s) => s,
+                Err(e) if e == "timeout" => "oracle-fail:timeout".into(),
+                Err(e) => e,
+            };
         }
     };
     let forest = forest_v;
@@ -571,8 +591,9 @@ fn exec_run(src: &str, runs: &str, src_b: Option<&str>) -> String {
             Pool::Global(n) => {
                 let line = format!("c13 solo {k} {src} {} {seed}.{dsize}.{tsize}", src_b.unwrap_or("~"));
                 match in_child(n, 300, &line) {
-                    None => Err(format!("oracle-fail:run{k}:timeout")),
-                    Some(s) => dec_result(&s),
+                    Ok(s) => dec_result(&s),
+                    Err(e) if e == "timeout" => Err(format!("oracle-fail:run{k}:timeout")),
+                    Err(e) => Err(format!("run{k}:{e}")),
                 }
             }
         };
